@@ -986,6 +986,84 @@ theorem accepted_evidence_admissible (H : Bytes → Bytes)
   exact Tmv.Props.C11.check_admits_only pe.ctx hm hr hd hsmall _ hok
 
 
+/-! ### vote timestamps (consensus `voteTime`) and the next block's time -/
+
+/-- **A correct validator stamps its vote later than the block it is locked on** (with
+`TimeIota > 0`), whatever the round's proposal and however far its clock is behind -/
+theorem voteTime_after_locked (now l : Time) (p : Option Time) (iota : Int) (hi : 0 < iota) :
+    l < voteTime now (some l) p iota := by
+  have h0 : l < l + iota := Int.lt_add_of_pos_right l hi
+  show l < if now > l + iota then now else l + iota
+  by_cases h : now > l + iota
+  · rw [if_pos h]; exact Int.lt_trans h0 h
+  · rw [if_neg h]; exact h0
+
+/-- without a lock the vote is later than the proposal it can be for -/
+theorem voteTime_after_proposal (now pt : Time) (iota : Int) (hi : 0 < iota) :
+    pt < voteTime now none (some pt) iota := by
+  have h0 : pt < pt + iota := Int.lt_add_of_pos_right pt hi
+  show pt < if now > pt + iota then now else pt + iota
+  by_cases h : now > pt + iota
+  · rw [if_pos h]; exact Int.lt_trans h0 h
+  · rw [if_neg h]; exact h0
+
+/-- the vote is never earlier than the local clock -/
+theorem voteTime_ge_now (now : Time) (l p : Option Time) (iota : Int) : now ≤ voteTime now l p iota := by
+  have key : ∀ m : Int, now ≤ if now > m then now else m := by
+    intro m
+    by_cases h : now > m
+    · rw [if_pos h]; exact Int.le_refl _
+    · rw [if_neg h]; exact Int.not_lt.mp h
+  exact key _
+
+theorem lowWeight_zero_of_all_gt (L : Time) (l : List (Time × Int)) (h : ∀ y ∈ l, L < y.1) :
+    lowWeight L l = 0 := by
+  induction l with
+  | nil => simp [lowWeight]
+  | cons x r ih =>
+    rw [lowWeight_cons]
+    have hx : ¬ x.1 ≤ L := Int.not_le.mpr (h x List.mem_cons_self)
+    simp only [hx, if_false]
+    have := ih (fun y hy => h y (List.mem_cons_of_mem _ hy))
+    omega
+
+/-- every counted vote stamped after the previous block ⇒ the median is after it -/
+theorem medianTime_after_of_votes_after (c : Commit) (vs : ValSet) (L : Time)
+    (hp : ∀ v ∈ vs, 0 < v.power) (hne : weightedTimes c.sigs vs ≠ [])
+    (hall : ∀ y ∈ weightedTimes c.sigs vs, L < y.1) : L < medianTime c vs := by
+  unfold medianTime
+  exact (weightedMedian_gt_iff L _ (weightedTimes_pos c.sigs vs hp)).mpr
+    (Or.inr (Or.inl ⟨lowWeight_zero_of_all_gt L _ hall, hne⟩))
+
+/-- **BFT time, end to end.** The commit of block X (time `st.lastBlockTime`) is made of
+precommits FOR X; a correct validator precommits X only while locked on X, so its timestamp is
+`voteTime now (some X.time) proposal iota` for its clock `now` and whatever proposal it holds. If
+every counted signature of the last commit is stamped that way (`TimeIota > 0`), the weighted
+median is later than X's time and the block the next correct proposer builds passes validation —
+in particular the "time later than the previous block" check. The rule that the LOCKED block
+comes first in `voteTime` is what this rests on. -/
+theorem next_block_valid_of_correct_votes (env : Env) (st : State) (h : Int) (txs : List Bytes)
+    (c : Commit) (evs : List Ev) (prop : Bytes) (hin : ProposerInput env st h txs c evs prop)
+    (hp : ∀ v ∈ st.lastVals, 0 < v.power) (iota : Int) (hi : 0 < iota)
+    (hne : st.initialHeight < h → weightedTimes c.sigs st.lastVals ≠ [])
+    (hvotes : ∀ y ∈ weightedTimes c.sigs st.lastVals,
+      ∃ (now : Time) (proposal : Option Time), y.1 = voteTime now (some st.lastBlockTime) proposal iota) :
+    validateBlock env st (makeBlock env st h txs c evs prop) = .ok () := by
+  rw [makeBlock_valid_iff env st h txs c evs prop hin hp]
+  intro hlt
+  right; left
+  refine ⟨lowWeight_zero_of_all_gt _ _ ?_, hne hlt⟩
+  intro y hy
+  obtain ⟨now, p, hy1⟩ := hvotes y hy
+  rw [hy1]
+  exact voteTime_after_locked now st.lastBlockTime p iota hi
+
+/-- what goes wrong if the proposal were consulted first: locked on X (time 100), proposal Y
+earlier (time 10), clock behind (now 0): the vote would be stamped 11 ≤ 100 -/
+example : ¬ (100 : Int) < voteTime 0 none (some 10) 1 := by decide
+example : (100 : Int) < voteTime 0 (some 100) (some 10) 1 := by decide
+
+
 /-! ### the hypotheses are satisfiable (non-vacuity) -/
 
 example : HashLen wEnv := by
